@@ -14,7 +14,7 @@ import re
 
 META = dict(
     id="C30",
-    specs=["AmpWire.tla", "AmpWireMC.tla", "AmpWireTrace.tla", "AmpWireArg.tla", "AmpWireArgMC.tla", "AmpWireArgTrace.tla"],
+    specs=["AmpWireOps.tla", "AmpWire.tla", "AmpWireMC.tla", "AmpWireTrace.tla", "AmpWireArg.tla", "AmpWireArgMC.tla", "AmpWireArgTrace.tla"],
     technique="TLA+ format specification of the AMP box wire format over run-length byte strings with real boundary lengths "
               "(TLC exhaustive over length classes, all class-distinct split points) + TLC trace validation of real "
               "AmpBox.serialize/BinaryBoxProtocol runs (exhaustive class configurations x split schedules, random boxes and "
@@ -357,6 +357,171 @@ def rand_schedule(cfg, rng):
     return ops
 
 
+ARG_CPS = [0, 65, 127, 128, 2047, 2048, 55295, 55296, 57343, 57344, 65535, 65536, 1114111]
+STR, UNI, BOOL = ["Str"], ["Uni"], ["Bool"]
+NONE_V = ["N", []]
+
+
+def S_(n, fill=0):
+    return ["S", norm([[fill, n]])]
+
+
+def _seqs_upto(items, n):
+    out = [[]]
+    for k in range(1, n + 1):
+        out += [list(x) for x in itertools.product(items, repeat=k)]
+    return out
+
+
+def arg_class_cases():
+    """The AmpWireArgMC family, mirrored (each case is run on the real codecs)."""
+    F1 = [[rle(b"a"), STR, 0], [rle(b"b"), STR, 1]]
+    F2 = [[rle(b"a"), UNI, 1], [rle(b"b"), ["List", BOOL], 0]]
+    cases = []
+    cases += [(STR, S_(n)) for n in (0, 1, 3, 65533, 65534, 65535, 65536)]
+    cases += [(UNI, ["U", cps]) for cps in _seqs_upto(ARG_CPS, 2)]
+    cases += [(BOOL, ["B", b]) for b in (0, 1)]
+    cases += [(["List", STR], ["L", es]) for es in _seqs_upto([S_(n) for n in (0, 1, 65531, 65533, 65534, 65536)], 2)]
+    cases += [(["List", STR], ["L", [S_(0), S_(1), S_(n)]]) for n in (65527, 65528, 65529)]
+    cases += [(["List", BOOL], ["L", es]) for es in _seqs_upto([["B", 0], ["B", 1]], 3)]
+    cases += [(["List", UNI], ["L", es]) for es in _seqs_upto([["U", []], ["U", [65536]], ["U", [128, 55296]]], 2)]
+    inner = [["L", es] for es in _seqs_upto([S_(0), S_(1)], 2)]
+    cases += [(["List", ["List", STR]], ["L", ls]) for ls in _seqs_upto(inner, 2)]
+    cases += [(["List", ["List", STR]], ["L", [["L", [S_(n)]]]]) for n in (65530, 65531, 65532)]
+    rows1 = [[a, b] for a in (S_(0), S_(1), NONE_V) for b in (S_(0), S_(3), NONE_V)]
+    cases += [(["AmpList", F1], ["A", rows]) for rows in _seqs_upto(rows1, 2)]
+    cases += [(["AmpList", F1], ["A", [[S_(n), S_(m)]]]) for n in (65525, 65526, 65535, 65536) for m in (0, 1)]
+    rows2 = [[a, b] for a in (["U", [2048]], NONE_V) for b in (["L", []], ["L", [["B", 1]]])]
+    cases += [(["AmpList", F2], ["A", rows]) for rows in _seqs_upto(rows2, 2)]
+    cases += [(["AmpList", []], ["A", [[]] * k]) for k in range(4)]
+    nested = ["AmpList", [[rle(b"x"), ["AmpList", F1], 0]]]
+    cases += [(nested, ["A", [[["A", rows]]]]) for rows in _seqs_upto([[S_(1), NONE_V], [S_(0), S_(1)]], 2)]
+    return [{"name": rle(b"a"), "t": t, "v": v} for t, v in cases]
+
+
+def rand_type(rng, depth=0):
+    r = rng.random()
+    if depth >= 2 or r < 0.45:
+        return rng.choice([STR, UNI, BOOL])
+    if r < 0.75:
+        return ["List", rand_type(rng, depth + 1)]
+    names = rng.sample(["a", "b", "c", "key", "z9"], rng.randint(0, 3))
+    return ["AmpList", [[rle(n.encode()), rand_type(rng, depth + 1), int(rng.random() < 0.4)] for n in sorted(names)]]
+
+
+def _contains_amplist(t):
+    return t[0] == "AmpList" or (t[0] == "List" and _contains_amplist(t[1]))
+
+
+def rand_value(rng, t, depth=0):
+    k = t[0]
+    if k == "Str":
+        big = depth == 0 and rng.random() < 0.15
+        n = rng.choice([65533, 65534, 65535, 65536, rng.randint(60000, 70000)]) if big else rng.choice([0, 1, 2, rng.randint(3, 300)])
+        return ["S", rand_runs(rng, n)]
+    if k == "Uni":
+        n = rng.choice([0, 1, 2, 3, rng.randint(4, 40)])
+        return ["U", [rng.choice(ARG_CPS) if rng.random() < 0.5 else rng.choice([rng.randint(0, 127), rng.randint(128, 2047),
+                      rng.randint(2048, 65535), rng.randint(65536, 1114111)]) for _ in range(n)]]
+    if k == "Bool":
+        return ["B", rng.randint(0, 1)]
+    if k == "List":
+        return ["L", [rand_value(rng, t[1], depth + 1) for _ in range(rng.choice([0, 1, 2, 3, 5]))]]
+    rows = []
+    for _ in range(rng.choice([0, 1, 2, 3])):
+        row = []
+        for n, ft, opt in t[1]:
+            if opt and rng.random() < 0.4:          # None only for optional fields (None for a required field is outside the domain)
+                row.append(NONE_V)
+            else:
+                row.append(rand_value(rng, ft, depth + 1))
+        rows.append(row)
+    return ["A", rows]
+
+
+def rand_arg_case(rng):
+    while True:
+        t = rand_type(rng)
+        # ListOf(AmpList) is documented as unsupported (ListOf needs toString/fromString element types)
+        if t[0] == "List" and _contains_amplist(t[1]):
+            continue
+        if t[0] == "AmpList" and any(ft[0] == "List" and _contains_amplist(ft[1]) for _, ft, _ in t[1]):
+            continue
+        break
+    name = rng.choice([b"a", b"a", b"arg", b"x" * 255, b"y" * 256, b"value_1"])
+    return {"name": rle(name), "t": t, "v": rand_value(rng, t)}
+
+
+def arg_fingerprint(trace, rej):
+    if rej.reached >= len(trace["ev"]):
+        return "arg/end"
+    e = trace["ev"][rej.reached]
+    return "arg/%s/%s/%s" % (e["e"], e["res"], trace["cfg"]["t"][0])
+
+
+def arg_mutate(t, rng):
+    evs = t["ev"]
+    e = evs[rng.randrange(len(evs))]
+    if e["e"] == "enc":
+        if e["res"] == "refused":
+            e["res"], e["wr"] = "ok", [[0, 2]]
+        elif rng.random() < 0.5 and e["wr"]:
+            j = rng.randrange(len(e["wr"]))
+            e["wr"][j][0] = (e["wr"][j][0] + 1) % 256
+            e["wr"] = norm(e["wr"])
+        else:
+            e["wr"] = norm(e["wr"] + [[0, 2]])
+    else:
+        v = e["v"]
+        if v[0] == "B":
+            v[1] = 1 - v[1]
+        elif v[0] == "S":
+            v[1] = norm(v[1] + [[1, 1]])
+        elif v[0] in ("U",):
+            v[1] = v[1] + [65]
+        elif v[0] in ("L", "A") and v[1]:
+            v[1].pop()
+        else:
+            e["v"] = ["X", []]
+    return t
+
+
+def run_args(ctx):
+    from harness.core import MachineryError
+    r = ctx.mc("AmpWireArgMC", "AmpWireArgMC.cfg")
+    if not r.ok:
+        raise MachineryError("AmpWireArg spec violates its own invariants: " + r.error)
+    ctx.require_actions("AmpWireArgMC", ["EncodeOk", "EncodeRefuse", "Decode"])
+    traces = [run_arg(c) for c in arg_class_cases()]
+    ctx.extra["arg_class_cases"] = len(traces)
+    for _ in range(ctx.pick(600, 30000)):
+        traces.append(run_arg(rand_arg_case(ctx.rng)))
+    for t in traces:
+        ctx.note_trace(t, nontrivial=len(t["ev"]) >= 2)
+    ctx.log("recorded %d real argument encode/decode executions" % len(traces))
+    rej = ctx.validate("AmpWireArgTrace", traces, shard_size=ctx.pick(1500, 4000))
+    for x in rej:
+        t = traces[x.idx]
+        e = t["ev"][x.reached] if x.reached < len(t["ev"]) else None
+        ctx.violation(arg_fingerprint(t, x), "argument codec run not explained by AmpWireArg.tla: type %s value %s event %s info %s"
+                      % (t["cfg"]["t"], str(t["cfg"]["v"])[:300], str(e)[:300], t["info"][min(x.reached, len(t["info"]) - 1)]),
+                      dict(kind="arg", cfg=t["cfg"], rejected_at=x.reached))
+    bad = {x.idx for x in rej}
+    good = [t for i, t in enumerate(traces) if i not in bad]
+    ctx.selftest_rejects("AmpWireArgTrace", good[-200:], arg_mutate, n=16)
+
+
+def replay_args(ctx, obj):
+    t = run_arg(obj["cfg"])
+    ctx.note_trace(t)
+    rej = ctx.validate("AmpWireArgTrace", [t])
+    for x in rej:
+        ctx.violation(arg_fingerprint(t, x), "replayed argument case rejected at event %d" % x.reached,
+                      dict(kind="arg", cfg=t["cfg"], rejected_at=x.reached))
+    for e, i in zip(t["ev"], t["info"]):
+        print(str(e)[:400], i)
+
+
 # --------------------------------------------------------------------------- verdict plumbing
 
 def fingerprint(trace, rej):
@@ -414,12 +579,106 @@ def mutate(t, rng):
     return t
 
 
-def run_args(ctx):
-    pass
+# --------------------------------------------------------------------------- argument structure (AmpWireArg)
+
+_CMD_CACHE = {}
 
 
-def replay_args(ctx, obj):
-    pass
+def _amp_type(t):
+    from twisted.protocols import amp
+    k = t[0]
+    if k == "Str":
+        return amp.String()
+    if k == "Uni":
+        return amp.Unicode()
+    if k == "Bool":
+        return amp.Boolean()
+    if k == "List":
+        return amp.ListOf(_amp_type(t[1]))
+    if k == "AmpList":
+        return amp.AmpList([(unrle(n), _amp_type(ft) if not opt else _amp_type_opt(ft)) for n, ft, opt in t[1]])
+    raise ValueError(k)
+
+
+def _amp_type_opt(t):
+    a = _amp_type(t)
+    a.optional = True
+    return a
+
+
+def _py_value(t, v):
+    """canonical value -> python object handed to the real encoder"""
+    if v[0] == "N":
+        return None
+    k = t[0]
+    if k == "Str":
+        return unrle(v[1])
+    if k == "Uni":
+        return "".join(chr(c) for c in v[1])
+    if k == "Bool":
+        return bool(v[1])
+    if k == "List":
+        return [_py_value(t[1], e) for e in v[1]]
+    return [{unrle(n).decode("ascii"): _py_value(ft, row[i]) for i, (n, ft, opt) in enumerate(t[1])} for row in v[1]]
+
+
+def _canon(t, o):
+    """python object produced by the real decoder -> canonical value (["X", []] when it has an unexpected shape)"""
+    X = ["X", []]
+    if o is None:
+        return ["N", []]
+    k = t[0]
+    if k == "Str":
+        return ["S", rle(o)] if isinstance(o, bytes) else X
+    if k == "Uni":
+        return ["U", [ord(c) for c in o]] if isinstance(o, str) else X
+    if k == "Bool":
+        return ["B", int(o)] if isinstance(o, bool) else X
+    if k == "List":
+        return ["L", [_canon(t[1], e) for e in o]] if isinstance(o, list) else X
+    if not isinstance(o, list):
+        return X
+    rows = []
+    for d in o:
+        if not isinstance(d, dict) or set(d) != {unrle(n).decode("ascii") for n, _, _ in t[1]}:
+            return X
+        rows.append([_canon(ft, d[unrle(n).decode("ascii")]) for n, ft, opt in t[1]])
+    return ["A", rows]
+
+
+def run_arg(cfg):
+    """One argument of type cfg.t with value cfg.v through a real Command: makeArguments + serialize, then
+    parseString + parseArguments."""
+    import json as _json
+    from twisted.protocols import amp
+    key = _json.dumps([cfg["name"], cfg["t"]])
+    cmd = _CMD_CACHE.get(key)
+    name = unrle(cfg["name"])
+    if cmd is None:
+        cmd = type("ArgCmd", (amp.Command,), {"arguments": [(name, _amp_type(cfg["t"]))]})
+        if len(_CMD_CACHE) < 500:
+            _CMD_CACHE[key] = cmd
+    proto = amp.AMP()
+    ev, info = [], []
+    pyname = name.decode("ascii")
+    try:
+        box = cmd.makeArguments({pyname: _py_value(cfg["t"], cfg["v"])}, proto)
+        wire = box.serialize()
+        ev.append({"e": "enc", "res": "ok", "wr": rle(wire)})
+        info.append({})
+    except Exception as e:
+        ev.append({"e": "enc", "res": "refused", "wr": []})
+        info.append({"exc": type(e).__name__})
+        return {"cfg": cfg, "ev": ev, "info": info}
+    try:
+        boxes = amp.parseString(wire)
+        objs = cmd.parseArguments(boxes[0], proto) if len(boxes) == 1 else {}
+        ev.append({"e": "dec", "res": "ok", "v": _canon(cfg["t"], objs[pyname]) if pyname in objs else ["X", []]})
+        info.append({})
+    except Exception as e:
+        ev.append({"e": "dec", "res": "EXC:" + type(e).__name__, "v": ["X", []]})
+        info.append({"exc": type(e).__name__})
+    return {"cfg": cfg, "ev": ev, "info": info}
 
 
 def run(ctx):
@@ -430,6 +689,10 @@ def run(ctx):
     r = ctx.mc("AmpWireMC", ctx.pick("AmpWireMC.cfg", "AmpWireMC.thorough.cfg"), coverage=False)
     if not r.ok:
         raise MachineryError("AmpWire spec violates its own invariants: " + r.error)
+    if not ctx.quick:
+        r2 = ctx.mc("AmpWireMC", "AmpWireMC.thorough2.cfg", coverage=False, label="three boxes / 2+1 pairs over reduced classes")
+        if not r2.ok:
+            raise MachineryError("AmpWire spec violates its own invariants: " + r2.error)
     rc = ctx.mc("AmpWireMC", "AmpWireMC.cov.cfg", label="coverage / vacuity guard on a sub-family")
     if not rc.ok:
         raise MachineryError("AmpWire spec violates its own invariants: " + rc.error)
